@@ -523,3 +523,17 @@ SEEDED_ON = {
          "cov_xx, cov_yy, cov_xy = next(pair_results)\n                    if wfs_i == wfs_j:\n                        next(pair_results)", "O"),
     ],
 }
+
+SEEDED["C13"] += [
+    (KL, "                                   2 * rad[i] * rad[j] *\n", "                                   rad[i] * rad[j] *\n", "A13"),
+    (KL, "            tmp = fnorm * (2 * np.pi / nth) * np.fft.fft(sf, axis=0)\n", "            tmp = fnorm * (2 * np.pi / nth) * np.fft.ifft(sf, axis=0)\n", "A13"),
+    (KL, "    fnorm = 1. / 2. * (-1) / (2 * np.pi * (1 - ri**2))\n", "    fnorm = 1. / 2. * (-1) / (2 * np.pi * (1 - ri))\n", "A13"),
+    (KL, "            kernel[j, i, :] = tmp\n", "            kernel[i, j, :] = tmp\n", "A13"),
+    (KL, "    nth = oversampling * nr\n", "    nth = oversampling * nr + 1\n", "A13"),
+    (KL, "        for j in range(i + 1):\n            radius", "        for j in range(i):\n            radius", "A13"),
+]
+BENIGN["C13"] += [
+    (KL, "            tmp = fnorm * (2 * np.pi / nth) * np.fft.fft(sf, axis=0)\n", "            spectrum = np.fft.fft(sf)\n            tmp = spectrum * (fnorm * 2 * np.pi / nth)\n"),
+    (KL, "    for i in range(nr):\n        for j in range(i + 1):\n            radius = 0.5 * np.sqrt(rad[i]**2 + rad[j]**2 -\n                                   2 * rad[i] * rad[j] *\n                                   np.cos(np.arange(nth) * 2 * np.pi / nth))\n",
+          "    cos_theta = np.cos(np.arange(nth) * 2 * np.pi / nth)\n    for i in range(nr):\n        for j in range(i + 1):\n            rad_i, rad_j = rad[i], rad[j]\n            radius = 0.5 * np.sqrt(rad_i**2 + rad_j**2 - 2 * rad_i * rad_j * cos_theta)\n"),
+]
